@@ -150,6 +150,7 @@ func c11World(out *vh.Out, root string, wi int, name string, steps []qstep, chec
 func C11QueryWorlds(out *vh.Out, root string, seed uint64, n int) {
 	baseTime = time.Date(2023, 6, 15, 10, 0, 0, 0, time.Now().Location()).UnixMilli()
 	lastFirstAtStorageInterval = false
+	orderByStatements = false
 	mk := func(q queryJ) *queryJ { q.render(); return &q }
 	w := func(h, slot int, vals map[int]int) qstep {
 		return qstep{Op: "w", P: &point{Metric: 0, Host: h, Zone: h % 3, Slot: slot, Vals: vals}}
